@@ -1030,12 +1030,31 @@ func fold(c *harness.Check, scenario string, fn harness.ScenarioFn, rs []harness
 	}
 }
 
+// roundOf extracts the failing round number from a history violation's details (0 if none).
+func roundOf(details string) int {
+	_, rest, ok := strings.Cut(details, ", round ")
+	if !ok {
+		return 0
+	}
+	n := 0
+	for _, ch := range rest {
+		if ch < '0' || ch > '9' {
+			break
+		}
+		n = n*10 + int(ch-'0')
+	}
+	return n
+}
+
 func reportViolations(c *harness.Check, fns map[string]harness.ScenarioFn, viols []pendingViol) {
 	// smallest written-out counterexample per shape first
 	sort.SliceStable(viols, func(i, j int) bool {
 		a, b := viols[i], viols[j]
 		if a.shape != b.shape {
 			return a.shape < b.shape
+		}
+		if ra, rb := roundOf(a.details), roundOf(b.details); ra != rb {
+			return ra < rb
 		}
 		if len(a.details) != len(b.details) {
 			return len(a.details) < len(b.details)
